@@ -84,6 +84,28 @@ CHECKS = {
                      'behind module seams, seeded interleaving of '
                      'evaluations over executables, clock-reading oracle',
     },
+    'C14': {
+        'category': 'fault_enumeration',
+        'text': 'Fault enumeration inside the simulator: for each seeded '
+                'multi-book workbook every subset of its fault points '
+                '(unreadable / absent satellite file with one of 10 '
+                'disk-fault kinds injected at the in-memory disk seam, '
+                'absent sheet, undefined name, unknown or _xlfn. function, '
+                '#REF! literal) is executed when there are <= 4 (quick) / 6 '
+                '(thorough) points, a seeded sample otherwise; the root book '
+                'is loaded and finish() meets the faults in work-list order; '
+                'each execution is compared with the fault-free twin: no '
+                'abort, independent cells identical, direct users show the '
+                'stated error kind, strict dependents are errors, every '
+                'formula cell is a fixed point of its own formula on the '
+                'observed values (judges IFERROR/ISERROR interception); a '
+                'second configuration makes the disk faults transient '
+                '(may fail, never wrong data).',
+        'design_ref': 'DESIGN.md 4.5',
+        'technique': 'deterministic simulation with fault injection: '
+                     'enumeration of fault subsets at the disk / sheet / '
+                     'name / function seams against a fault-free twin',
+    },
 }
 
 NOT_APPLICABLE = {
